@@ -291,26 +291,29 @@ def _member_interval(t, p):
         return None
     v = rval(p)
     res = True
+
+    def near(e, ve):
+        # an exact number against a double (or the reverse) closer than 1e-9 relative: the library compares such
+        # pairs in double arithmetic (a number-comparison matter, property C29), the model does not decide
+        return e[0] != p[0] and abs(v - ve) <= Fraction(1, 10 ** 9) * max(1, abs(ve))
     if a[0] != "oo":
         va = rval(a)
-        if v < va:
+        if near(a, va):
+            res = None
+        elif v < va:
             return False
-        if v == va:
-            if a[0] != p[0]:
-                res = None
-            elif lo:
-                return False
+        elif v == va and lo:
+            return False
     elif a[1] > 0:
         return False
     if b[0] != "oo":
         vb = rval(b)
-        if v > vb:
+        if near(b, vb):
+            res = None
+        elif v > vb:
             return False
-        if v == vb:
-            if b[0] != p[0]:
-                res = None
-            elif ro:
-                return False
+        elif v == vb and ro:
+            return False
     elif b[1] < 0:
         return False
     return res
